@@ -430,41 +430,48 @@ Definition value_number_owned (cf : cfg) (v : value) (on_number : num -> vres dv
   | _ => if arbitrary_precision cf then numeric_visitor_on_non_number else verr MInvalidType
   end.
 
+(* VariantDeserializer { value }: unit_variant / newtype_variant_seed / tuple_variant / struct_variant *)
+Definition variant_payload_owned (rec : ty -> value -> vres dval) (vr : variant) (value : option value) : vres dval :=
+  match vr with
+  | VUnit =>                                   (* unit_variant: Some(value) => <()>::deserialize(value) *)
+    match value with
+    | Some x => match x with VNull => VOk DUnit | _ => verr MInvalidType end
+    | None => VOk DUnit
+    end
+  | VNewtype t1 =>                             (* newtype_variant_seed *)
+    match value with
+    | Some x => rec t1 x
+    | None => verr MInvalidType
+    end
+  | VTuple ts =>                               (* tuple_variant *)
+    match value with
+    | Some (VArr l) =>
+      match l with
+      | [] => verr MInvalidType                (* visitor.visit_unit(): TupV does not accept it *)
+      | _ :: _ => vmap DSeq (visit_array_owned l (seq_tuple rec ts))
+      end
+    | Some _ => verr MInvalidType
+    | None => verr MInvalidType
+    end
+  | VStruct fields =>                          (* struct_variant *)
+    match value with
+    | Some (VObj m) => vmap DStruct (map_any_owned m (map_fields rec fields (empty_slots fields)))
+    | Some _ => verr MInvalidType
+    | None => verr MInvalidType
+    end
+  end.
+
+(* visitor.visit_enum(EnumDeserializer { variant, value }): variant_seed (the name through serde's StringDeserializer),
+   then the payload by variant kind *)
+Definition visit_enum_owned (rec : ty -> value -> vres dval) (vs : list (bytes * variant)) (variant : bytes) (value : option value) : vres dval :=
+  let& (name, vr, _) := of_visit1 (visit_variant vs variant false st0) in
+  vmap (DVariant name) (variant_payload_owned rec vr value).
+
 Fixpoint de_value_owned (fuel : nat) (cf : cfg) (fx : fenv) (t : ty) (v : value) {struct fuel} : vres dval :=
   match fuel with
   | O => VFuel
   | S f =>
     let rec := de_value_owned f cf fx in
-    (* VariantDeserializer { value } *)
-    let variant_payload (vr : variant) (value : option value) : vres dval :=
-      match vr with
-      | VUnit =>                                   (* unit_variant: Some(value) => <()>::deserialize(value) *)
-        match value with
-        | Some VNull | None => VOk DUnit
-        | Some _ => verr MInvalidType
-        end
-      | VNewtype t1 =>                             (* newtype_variant_seed *)
-        match value with
-        | Some x => rec t1 x
-        | None => verr MInvalidType
-        end
-      | VTuple ts =>                               (* tuple_variant *)
-        match value with
-        | Some (VArr l) =>
-          match l with
-          | [] => verr MInvalidType                (* visitor.visit_unit(): TupV does not accept it *)
-          | _ :: _ => vmap DSeq (visit_array_owned l (seq_tuple rec ts))
-          end
-        | Some _ => verr MInvalidType
-        | None => verr MInvalidType
-        end
-      | VStruct fields =>                          (* struct_variant *)
-        match value with
-        | Some (VObj m) => vmap DStruct (map_any_owned m (map_fields rec fields (empty_slots fields)))
-        | Some _ => verr MInvalidType
-        | None => verr MInvalidType
-        end
-      end in
     match t with
     | TValue => vmap (fun x => DValue (Extract.Driver.show_value x)) (value_of_value cf fx v)
     | TIgnored => VOk DIgnored                     (* deserialize_ignored_any: drop(self); visit_unit *)
@@ -502,13 +509,9 @@ Fixpoint de_value_owned (fuel : nat) (cf : cfg) (fx : fenv) (t : ty) (v : value)
       | _ => verr MInvalidType
       end
     | TEnum vs =>
-      (* EnumDeserializer { variant, value }: variant_seed through serde's StringDeserializer (visit_string) *)
-      let visit_enum (variant : bytes) (value : option value) : vres dval :=
-        let& (name, vr, _) := of_visit1 (visit_variant vs variant false st0) in
-        vmap (DVariant name) (variant_payload vr value) in
       match v with
-      | VObj m => map_enum_owned m visit_enum
-      | VStr s => visit_enum s None
+      | VObj m => map_enum_owned m (visit_enum_owned rec vs)
+      | VStr s => visit_enum_owned rec vs s None
       | _ => verr MInvalidType
       end
     end
@@ -542,41 +545,48 @@ Definition value_number_ref (cf : cfg) (v : value) (on_number : num -> vres dval
   | _ => if arbitrary_precision cf then numeric_visitor_on_non_number else verr MInvalidType
   end.
 
+(* VariantRefDeserializer { value }: unit_variant / newtype_variant_seed / tuple_variant / struct_variant *)
+Definition variant_payload_ref (rec : ty -> value -> vres dval) (vr : variant) (value : option value) : vres dval :=
+  match vr with
+  | VUnit =>                                   (* unit_variant: Some(value) => <()>::deserialize(value) *)
+    match value with
+    | Some x => match x with VNull => VOk DUnit | _ => verr MInvalidType end
+    | None => VOk DUnit
+    end
+  | VNewtype t1 =>                             (* newtype_variant_seed *)
+    match value with
+    | Some x => rec t1 x
+    | None => verr MInvalidType
+    end
+  | VTuple ts =>                               (* tuple_variant *)
+    match value with
+    | Some (VArr l) =>
+      match l with
+      | [] => verr MInvalidType                (* visitor.visit_unit(): TupV does not accept it *)
+      | _ :: _ => vmap DSeq (visit_array_ref l (seq_tuple rec ts))
+      end
+    | Some _ => verr MInvalidType
+    | None => verr MInvalidType
+    end
+  | VStruct fields =>                          (* struct_variant *)
+    match value with
+    | Some (VObj m) => vmap DStruct (map_any_ref m (map_fields rec fields (empty_slots fields)))
+    | Some _ => verr MInvalidType
+    | None => verr MInvalidType
+    end
+  end.
+
+(* visitor.visit_enum(EnumRefDeserializer { variant, value }): variant_seed (the name through serde's StrDeserializer),
+   then the payload by variant kind *)
+Definition visit_enum_ref (rec : ty -> value -> vres dval) (vs : list (bytes * variant)) (variant : bytes) (value : option value) : vres dval :=
+  let& (name, vr, _) := of_visit1 (visit_variant vs variant false st0) in
+  vmap (DVariant name) (variant_payload_ref rec vr value).
+
 Fixpoint de_value_ref (fuel : nat) (cf : cfg) (fx : fenv) (t : ty) (v : value) {struct fuel} : vres dval :=
   match fuel with
   | O => VFuel
   | S f =>
     let rec := de_value_ref f cf fx in
-    (* VariantRefDeserializer { value } *)
-    let variant_payload (vr : variant) (value : option value) : vres dval :=
-      match vr with
-      | VUnit =>
-        match value with
-        | Some x => match x with VNull => VOk DUnit | _ => verr MInvalidType end
-        | None => VOk DUnit
-        end
-      | VNewtype t1 =>
-        match value with
-        | Some x => rec t1 x
-        | None => verr MInvalidType
-        end
-      | VTuple ts =>
-        match value with
-        | Some (VArr l) =>
-          match l with
-          | [] => verr MInvalidType
-          | _ :: _ => vmap DSeq (visit_array_ref l (seq_tuple rec ts))
-          end
-        | Some _ => verr MInvalidType
-        | None => verr MInvalidType
-        end
-      | VStruct fields =>
-        match value with
-        | Some (VObj m) => vmap DStruct (map_any_ref m (map_fields rec fields (empty_slots fields)))
-        | Some _ => verr MInvalidType
-        | None => verr MInvalidType
-        end
-      end in
     match t with
     | TValue => vmap (fun x => DValue (Extract.Driver.show_value x)) (value_of_value cf fx v)
     | TIgnored => VOk DIgnored
@@ -614,13 +624,9 @@ Fixpoint de_value_ref (fuel : nat) (cf : cfg) (fx : fenv) (t : ty) (v : value) {
       | _ => verr MInvalidType
       end
     | TEnum vs =>
-      (* EnumRefDeserializer { variant, value }: variant_seed through serde's StrDeserializer (visit_str) *)
-      let visit_enum (variant : bytes) (value : option value) : vres dval :=
-        let& (name, vr, _) := of_visit1 (visit_variant vs variant false st0) in
-        vmap (DVariant name) (variant_payload vr value) in
       match v with
-      | VObj m => map_enum_ref m visit_enum
-      | VStr s => visit_enum s None
+      | VObj m => map_enum_ref m (visit_enum_ref rec vs)
+      | VStr s => visit_enum_ref rec vs s None
       | _ => verr MInvalidType
       end
     end
